@@ -31,7 +31,7 @@ type HostSpec struct {
 	Refuse    bool   `json:"refuse"`            // token server answers 401 to requests beyond the challenge scope
 	NoPost    bool   `json:"no_post"`           // token server lacks the OAuth2 POST endpoint (404)
 	Rotate    bool   `json:"rotate"`            // token server issues a new refresh token each time
-	// TokenFault: "" | status:<n> | badjson | emptyjson | notoken | accessfield
+	// TokenFault: "" | status:<n> | redirect:<n>:<host> | badjson | emptyjson | notoken | accessfield
 	TokenFault string `json:"token_fault,omitempty"`
 	// Accept: the registry accepts any syntactically valid token of its own (valid) or rejects everything (never)
 	Accept string `json:"accept,omitempty"` // "" = validate; "never" = always 401
@@ -379,6 +379,14 @@ func (w *World) tokenServer(hs []*HostSpec, req *http.Request, a *Arrival, body 
 	if req.Method == "POST" && h.NoPost {
 		a.Status = 404
 		return resp(req, 404, nil, "no oauth2 here")
+	}
+	if strings.HasPrefix(h.TokenFault, "redirect:") {
+		// "redirect:<status>:<host>": the realm sends the client elsewhere
+		parts := strings.SplitN(h.TokenFault, ":", 3)
+		fmt.Sscanf(parts[1], "%d", &a.Status)
+		hdr := http.Header{}
+		hdr.Set("Location", "https://"+strings.ReplaceAll(parts[2], "REALM", strings.Split(req.URL.Host, ":")[0])+"/token")
+		return resp(req, a.Status, hdr, "")
 	}
 	if strings.HasPrefix(h.TokenFault, "status:") {
 		fmt.Sscanf(h.TokenFault, "status:%d", &a.Status)
